@@ -34,10 +34,14 @@ def _probe_flag(flag):
 
 
 def prove(ctx, modules, extra_msgs=()):
-    from ..translate import enums
-    msgs = [schedflags.generate(common.REPO, common.LEAN, probe=_probe_flag), enums.generate(common.REPO, common.LEAN)] + list(extra_msgs)
+    from ..translate import enums, schedsrc
+    msgs = [schedflags.generate(common.REPO, common.LEAN, probe=_probe_flag), enums.generate(common.REPO, common.LEAN),
+            schedsrc.generate(common.REPO, common.LEAN)] + list(extra_msgs)
     ctx.notes.append(f"translator(schedflags): {msgs[0][1]}")
     ctx.notes.append(f"translator(enums): {msgs[1][1]}")
+    ctx.notes.append(f"translator(schedsrc): {msgs[2][1]}")
+    # which decision functions were regenerated from the source text in this run, which fell back on the model's own definition
+    ctx.extra_cov["schedsrc_translator"] = dict(schedsrc.LAST)
     # source obligations on JobState / DependencyStatus (Properties/SchedSrc.lean) belong to every scheduler property
     common.check_proofs(ctx, list(modules) + [m for m in ["XpmVerif.Properties.SchedSrc"] if m not in modules], translate_msgs=msgs)
 
@@ -50,6 +54,19 @@ def _run_one(args):
     ev, obs, tr, q = schedeng.run_random(spec, rng)
     fails = schedlib.monitors(spec, ev, obs, tr, q)
     return seed, spec, ev, obs, fails, q
+
+
+def _run_one_cov(args):
+    """`_run_one` + the lines of the scheduler's decision functions executed for the first time in this worker"""
+    from ..impl import linecov
+    on = linecov.start()
+    return _run_one(args), (linecov.drain() if on else None)
+
+
+def _explore_cov(args):
+    from ..impl import linecov
+    on = linecov.start()
+    return _explore(args), (linecov.drain() if on else None)
 
 
 def _explore(args):
@@ -127,11 +144,22 @@ def run(ctx, prop, gen_kwargs, rule, n_quick, n_thorough, focus=None, nontrivial
     base = ctx.rng.randrange(10**9)
     t0 = time.time()
     with mp.Pool(min(16, mp.cpu_count())) as pool:
-        results = pool.map(_run_one, [(base + i, gen_kwargs) for i in range(n)], chunksize=16)
+        results = pool.map(_run_one_cov, [(base + i, gen_kwargs) for i in range(n)], chunksize=16)
         exh = []
         if not ctx.quick() or True:
             limit = ctx.scale(150, 6000)
-            exh = pool.map(_explore, [(w, limit) for w in small_workloads(prop)])
+            exh = pool.map(_explore_cov, [(w, limit) for w in small_workloads(prop)])
+    # lines of dependencychanged / check / aio_submit / aio_start / ... that the engine executed in this run: the branches
+    # the event-by-event correspondence never reached are listed in the evidence
+    hits = [h for _, hs in list(results) + list(exh) if hs is not None for h in hs]
+    if all(hs is not None for _, hs in list(results) + list(exh)):
+        from ..impl import linecov
+        try:
+            ctx.extra_cov["engine_line_coverage"] = linecov.report({tuple(h) for h in hits})
+        except Exception as e:   # the report is an observation, never a verdict
+            ctx.notes.append(f"engine line coverage not available: {e}")
+    results = [r for r, _ in results]
+    exh = [r for r, _ in exh]
     lines, impl, owner = [], [], []
     for seed, spec, ev, obs, fails, q in results:
         reordered = sum(1 for e in ev if e[0] == "deliver" and e[1] > 0)
